@@ -8,6 +8,9 @@ import Vlsp.Model.Gha
 import Vlsp.Model.Go
 import Vlsp.Model.Cache
 import Vlsp.Spec.LatestSpec
+import Vlsp.Spec.Ranges
+import Vlsp.Spec.RefEco
+import Vlsp.Model.Checker
 
 /-! Line-protocol plumbing shared by the driver's op tables. -/
 namespace DriverLib
@@ -47,6 +50,35 @@ def verStr (v : Version) : String :=
 def ordStr : Ordering → String
   | .lt => "less" | .eq => "equal" | .gt => "greater"
 
+/-- reference verdict: `invalid` when the spec is not in the grammar, `badv` when the
+    candidate is not strict SemVer, else T/F -/
+def specNpmSat (spec v : Text) : String :=
+  match Spec.NodeSemver.parse spec with
+  | none => "invalid"
+  | some r =>
+    match Semver.parseStrict v with
+    | none => "badv"
+    | some x => tf (Spec.NodeSemver.sat r x)
+
+def specNpmFrag (spec : Text) : String := tf (Spec.NodeSemver.inFrag spec)
+
+def specCratesSat (spec v : Text) : String :=
+  match Spec.CargoReq.parse spec with
+  | none => "invalid"
+  | some r =>
+    match Semver.parseStrict v with
+    | none => "badv"
+    | some x => tf (Spec.CargoReq.sat r x)
+
+/-- Go: spec malformed → invalid; pseudo-version → T; else identity -/
+def specGoSat (spec v : Text) : String :=
+  if !Spec.GoMod.wf spec then "invalid"
+  else if Spec.GoMod.isPseudo spec then "T"
+  else tf (Spec.GoMod.inside spec v)
+
+def specGhaSat (spec v : Text) : String :=
+  if !Spec.GhaRef.wf spec then "invalid" else tf (Spec.GhaRef.inside spec v)
+
 def matcherFor (eco : Text) : Option Matcher :=
   match String.ofList eco with
   | "npm" | "pnpm" | "jsr" => some Npm.matcher
@@ -56,6 +88,39 @@ def matcherFor (eco : Text) : Option Matcher :=
   | _ => none
 
 def listStr (xs : List Text) : String := "[" ++ ",".intercalate (xs.map fun x => "x" ++ hex x) ++ "]"
+
+def optOf (t : Text) : Option Text := match t with | 'S' :: r => some r | _ => none
+
+def diagStr (d : Option (Checker.Severity × Text)) : String :=
+  match d with
+  | none => "-"
+  | some (.warning, m) => "W:" ++ hex m
+  | some (.error, m) => "E:" ++ hex m
+
+def refEcoFor (eco : Text) : Option Eco :=
+  match String.ofList eco with
+  | "npm" | "pnpm" | "jsr" => some Spec.RefEco.npm
+  | "crates" => some Spec.RefEco.crates
+  | "go" => some Spec.RefEco.go
+  | "gha" => some Spec.RefEco.gha
+  | _ => none
+
+/-- `checker.pure eco latest tagres cur versions…` — the MODEL's status and diagnostic for the given reads -/
+def checkerPure (eco latest tagres cur : Text) (versions : List Text) : String :=
+  match matcherFor eco with
+  | none => "UNKNOWN-ECO"
+  | some m =>
+    let r : Reads := ⟨some (optOf latest), fun _ => some (optOf tagres), some versions⟩
+    match Checker.compareVersion m r cur with
+    | none => "ERR"
+    | some (st, lo) => s!"{st.toString} {diagStr (Checker.createDiagnostic st cur lo)}"
+
+/-- `spec.diag eco latest tagres cur versions…` — the decision table over the REFERENCE semantics,
+    with the two admissible answers when the anchor equals an excluded L -/
+def specDiag (eco latest tagres cur : Text) (versions : List Text) : String :=
+  match refEcoFor eco with
+  | none => "UNKNOWN-ECO"
+  | some E => diagStr (Spec.Decision.specDiag E (optOf latest) (optOf tagres) versions cur)
 
 def intOfText (t : Text) : Int := (String.ofList t).toInt!
 
